@@ -5,32 +5,33 @@
    ONE blob of np pieces.  Peers: leeching Agents, Seeders (hold every piece, never leave) and at most
    one Corrupter (a peer that claims every piece and serves the pieces in cbad with wrong bytes).
    Scheduler.tla (one scheduler), PieceRequests.tla (request bookkeeping of one dispatcher) and
-   ConnState.tla (connection bookkeeping of one scheduler) describe the components in detail; this
-   module composes their abstractions:
+   ConnState.tla (connection bookkeeping of one scheduler, incl. pending connections and the blacklist)
+   describe the components in detail; this module composes their abstractions:
 
-     Join(p)            the peer's scheduler starts (arrival order is free)
-     StartDownload(p)   scheduler.Download -> CreateTorrent + newTorrentEvent (a complete torrent answers at once)
-     Open(a,p)          announce handout + handshake: both endpoints become active (connstate capacity on both sides)
-     Refuse(a,p)        the handshake fails (remote at capacity / gone / torrent unknown): a blacklists p
-     CloseEnd(p,q)      p's endpoint closes: remote gone or closed, both complete, or idle (ConnTTI) - blacklists, ClearPeer
-     ExpireBl(a,p)      a blacklist entry times out
-     Request(a,p,i)     dispatcher reserves piece i for peer p (pipeline limit, no duplicates outside endgame, never again
-                        to a peer whose payload for i was invalid)              piecerequest.Manager.ReservePieces / resend
-     Serve(p,a,i)       p answers the request from storage (GetPieceReader) - a payload enters the network
-     StartWrite(a,m)    the payload reaches a's storage: duplicate / conflict / piece becomes dirty    agentstorage.WritePiece
-     EndWrite(a,w)      the write finishes: checksum verified -> piece complete (Clear(i)); mismatch -> rejected, request invalid
-     Notice(a)          dispatcherCompleteEvent: waiting Downloads are answered, blacklist cleared
+     Join(a)            an agent's scheduler starts and Download is called (CreateTorrent + newTorrentEvent);
+                        arrival order and time are free; seeders and the corrupter run from the start
+     Open(a,p)          announce handout + handshake: both endpoints become active (capacity checked on both sides)
+     CloseEnd(p,q)      p's endpoint closes: remote gone or closed, both complete, or idle (ConnTTI); ClearPeer
+     Request(a,p,i)     the dispatcher reserves piece i at peer p (pipeline limit, no duplicates outside endgame, never
+                        again to a peer whose payload for i was invalid)      piecerequest.Manager.ReservePieces / resend
+     Serve(p,a,i)       p answers the request from its storage (GetPieceReader): a payload enters the network
+     StartWrite(a,m)    the payload reaches a's storage (agentstorage.WritePiece is entered)
+     EndWrite(a,w)      the write returns: "ok" checksum verified, piece complete, Clear(i); "dup" piece was complete;
+                        "rej" checksum mismatch or write conflict: piece stays missing, request marked invalid
+     Notice(a)          dispatcherCompleteEvent: the waiting Download is answered
      Leave(a)           an agent is stopped mid-transfer: it stops serving, its Download fails with "stopped"
      Lose(m)            a payload whose connection is gone is dropped
 
-   Configuration (np, maxc, pipe, cbad) is held in variables that never change after Init so that the trace
-   specification can set it per recorded swarm.
+   The blacklist (a closed or refused connection is not retried for BlacklistDuration) is what makes an agent
+   move on to the next peer of the handout in the real code; here it is abstracted into the fairness
+   assumption on Open(a, seeder) (see Fair).  Configuration (np, maxc, pipe, cbad) is held in variables that
+   never change after Init so that the trace specification can set it per recorded swarm.
 
    Verify = TRUE is the code (writePiece compares the piece sum); Verify = FALSE shows that the safety
    invariants are not vacuous (TLC then finds a cached wrong piece).                                      *)
 EXTENDS Integers, FiniteSets
 CONSTANTS Agents, Seeders, Corrupters,   \* disjoint sets of peer names
-          NPs, ConnLimits, Pipes,        \* choices for the configuration at Init
+          NPs, Maxcs, Pipes,             \* choices for the configuration at Init (Maxcs: set of functions Peers -> limit)
           MayLeave,                      \* agents that may be stopped
           Verify
 
@@ -39,15 +40,13 @@ VARIABLES np, maxc, pipe, cbad,          \* configuration
           have,                          \* have[p]: pieces marked complete in p's storage
           bad,                           \* bad[p]: pieces stored with wrong bytes (must stay empty for honest peers)
           conn,                          \* conn[p]: peers p has an active connection endpoint to
-          bl,                            \* bl[p]: peers blacklisted at p
           req,                           \* req[a][p]: pieces a has a pending request for at p
-          inv,                           \* inv[a]: <<p,i>> such that p's payload for i was invalid (while connected)
+          inv,                           \* inv[a]: <<p,i>> such that p's payload for i was rejected (while connected)
           net,                           \* payloads in flight: [to, from, piece, good, n]
-          writing,                       \* writing[a]: pieces being written: [piece, good, from, ov]
-          dl,                            \* Download call of each peer: none | wait | ok | stopped
-          noticed                        \* peers whose completion notice was applied
+          writing,                       \* writing[a]: writes in progress: [piece, good, from, ov, n]
+          dl                             \* Download call of each agent: none | wait | ok | stopped
 cfgv == <<np, maxc, pipe, cbad>>
-vars == <<np, maxc, pipe, cbad, joined, left, have, bad, conn, bl, req, inv, net, writing, dl, noticed>>
+vars == <<np, maxc, pipe, cbad, joined, left, have, bad, conn, req, inv, net, writing, dl>>
 
 Peers   == Agents \cup Seeders \cup Corrupters
 Honest  == Agents \cup Seeders
@@ -56,8 +55,6 @@ present == joined \ left
 Full(p) == have[p] = Pieces
 Missing(a) == Pieces \ have[a]
 Endgame(a) == Cardinality(Missing(a)) <= pipe          \* EndgameThreshold defaults to the pipeline limit
-\* the torrent exists at p (a handshake for it can be answered)
-HasTorrent(p) == p \in present /\ (p \in Seeders \cup Corrupters \/ dl[p] # "none")
 \* pieces a may still ask p for
 Wanted(a, p) == IF a \in Agents THEN {i \in have[p] \ have[a] : <<p, i>> \notin inv[a]} ELSE {}
 Between(p, q) == {m \in net : (m.to = p /\ m.from = q) \/ (m.to = q /\ m.from = p)}
@@ -73,70 +70,56 @@ Wr  == [piece : Nat, good : BOOLEAN, from : Peers, ov : BOOLEAN, n : Nat]
 TypeOK == /\ np \in Nat /\ pipe \in Nat /\ maxc \in [Peers -> Nat] /\ cbad \subseteq Pieces
           /\ joined \subseteq Peers /\ left \subseteq joined
           /\ have \in [Peers -> SUBSET Pieces] /\ bad \in [Peers -> SUBSET Pieces]
-          /\ conn \in [Peers -> SUBSET Peers] /\ bl \in [Peers -> SUBSET Peers]
+          /\ conn \in [Peers -> SUBSET Peers]
           /\ req \in [Peers -> [Peers -> SUBSET Pieces]]
           /\ inv \in [Peers -> SUBSET (Peers \X Pieces)]
           /\ net \subseteq Msg /\ writing \in [Peers -> SUBSET Wr]
           /\ dl \in [Peers -> {"none", "wait", "ok", "stopped"}]
-          /\ noticed \subseteq Peers
 
-Init == /\ np \in NPs /\ pipe \in Pipes /\ maxc \in [Peers -> ConnLimits]
+Init == /\ np \in NPs /\ pipe \in Pipes /\ maxc \in Maxcs
         /\ cbad \in IF Corrupters = {} THEN {{}}
                     ELSE (SUBSET (0..(np - 1))) \ (IF np > 0 THEN {{}} ELSE {})   \* the corrupter flips at least one piece
-        /\ joined = {} /\ left = {}
+        /\ joined = Seeders \cup Corrupters /\ left = {}
         /\ have = [p \in Peers |-> IF p \in Agents THEN {} ELSE 0..(np - 1)]
         /\ bad = [p \in Peers |-> {}]
-        /\ conn = [p \in Peers |-> {}] /\ bl = [p \in Peers |-> {}]
+        /\ conn = [p \in Peers |-> {}]
         /\ req = [p \in Peers |-> [q \in Peers |-> {}]]
         /\ inv = [p \in Peers |-> {}]
         /\ net = {} /\ writing = [p \in Peers |-> {}]
-        /\ dl = [p \in Peers |-> "none"] /\ noticed = {}
+        /\ dl = [p \in Peers |-> "none"]
 
 -----------------------------------------------------------------------------
-Join(p) == /\ p \notin joined /\ joined' = joined \cup {p}
-           /\ UNCHANGED <<cfgv, left, have, bad, conn, bl, req, inv, net, writing, dl, noticed>>
-
-StartDownload(p) ==
-  /\ p \in present /\ dl[p] = "none"
-  /\ dl' = [dl EXCEPT ![p] = IF Full(p) THEN "ok" ELSE "wait"]
-  /\ UNCHANGED <<cfgv, joined, left, have, bad, conn, bl, req, inv, net, writing, noticed>>
+\* scheduler start + scheduler.Download: a complete torrent (np = 0) answers at once
+JoinEff(p) == /\ joined' = joined \cup {p}
+              /\ dl' = [dl EXCEPT ![p] = IF Full(p) THEN "ok" ELSE "wait"]
+Join(a) == /\ a \in Agents /\ a \notin joined /\ JoinEff(a)
+           /\ UNCHANGED <<cfgv, left, have, bad, conn, req, inv, net, writing>>
 
 \* ---- connections (per endpoint; connstate counts pending + active against the limit) ----
 Room(p)        == Cardinality(conn[p]) < maxc[p]
-\* a (incomplete, downloading) dials p because the tracker handed p out and p is not blacklisted
+\* a (incomplete, downloading) dials p because the tracker handed p out
 Dials(a, p)    == /\ a \in Agents /\ a \in present /\ dl[a] = "wait" /\ ~Full(a)
-                  /\ p \in joined /\ p # a /\ p \notin conn[a] /\ p \notin bl[a] /\ Room(a)
-Accepts(p, a)  == HasTorrent(p) /\ a \notin conn[p] /\ Room(p)
+                  /\ p # a /\ p \notin conn[a] /\ Room(a)
+Accepts(p, a)  == p \in present /\ a \notin conn[p] /\ Room(p)
 OpenEndGuard(p, q) == p \in present /\ q # p /\ q \notin conn[p] /\ Room(p)
 OpenEndEff(p, q)   == conn' = [conn EXCEPT ![p] = @ \cup {q}]
 Open(a, p) ==
   /\ Dials(a, p) /\ Accepts(p, a)
   /\ conn' = [conn EXCEPT ![a] = @ \cup {p}, ![p] = @ \cup {a}]
-  /\ UNCHANGED <<cfgv, joined, left, have, bad, bl, req, inv, net, writing, dl, noticed>>
-
-BlacklistEff(p, q) == bl' = [bl EXCEPT ![p] = @ \cup {q}]
-Refuse(a, p) ==
-  /\ Dials(a, p) /\ ~Accepts(p, a)
-  /\ BlacklistEff(a, p)
-  /\ UNCHANGED <<cfgv, joined, left, have, bad, conn, req, inv, net, writing, dl, noticed>>
+  /\ UNCHANGED <<cfgv, joined, left, have, bad, req, inv, net, writing, dl>>
 
 MayClose(p, q) == \/ q \notin present \/ p \notin conn[q]          \* remote gone / remote endpoint closed
                   \/ (Full(p) /\ Full(q))                          \* "closing connection to completed peer"
                   \/ Useless(p, q)                                 \* idle for ConnTTI
-\* connClosedEvent: DeleteActive + Blacklist; the dispatcher's feed loop ends -> ClearPeer
+\* connClosedEvent: DeleteActive; the dispatcher's feed loop ends -> ClearPeer
 CloseEndEff(p, q) ==
   /\ conn' = [conn EXCEPT ![p] = @ \ {q}]
-  /\ bl'   = [bl EXCEPT ![p] = @ \cup {q}]
   /\ req'  = [req EXCEPT ![p][q] = {}]
   /\ inv'  = [inv EXCEPT ![p] = {x \in @ : x[1] # q}]
 CloseEnd(p, q) ==
   /\ p \in present /\ q \in conn[p] /\ MayClose(p, q)
   /\ CloseEndEff(p, q)
-  /\ UNCHANGED <<cfgv, joined, left, have, bad, net, writing, dl, noticed>>
-
-ExpireBl(a, p) ==
-  /\ p \in bl[a] /\ bl' = [bl EXCEPT ![a] = @ \ {p}]
-  /\ UNCHANGED <<cfgv, joined, left, have, bad, conn, req, inv, net, writing, dl, noticed>>
+  /\ UNCHANGED <<cfgv, joined, left, have, bad, net, writing, dl>>
 
 \* ---- requests and payloads ----
 RequestGuard(a, p, i) ==
@@ -146,7 +129,7 @@ RequestGuard(a, p, i) ==
 RequestEff(a, p, i) == req' = [req EXCEPT ![a][p] = @ \cup {i}]
 Request(a, p, i) ==
   /\ RequestGuard(a, p, i) /\ RequestEff(a, p, i)
-  /\ UNCHANGED <<cfgv, joined, left, have, bad, conn, bl, inv, net, writing, dl, noticed>>
+  /\ UNCHANGED <<cfgv, joined, left, have, bad, conn, inv, net, writing, dl>>
 
 \* what p's storage returns for piece i: only complete pieces are readable; the bytes are right unless p
 \* is the corrupter (pieces in cbad) or p itself stored a wrong piece
@@ -156,23 +139,23 @@ ServeGuard(p, a, i) ==
   /\ p \in present /\ a \in conn[p] /\ i \in req[a][p] /\ Holds(p, i)
   /\ \A m \in net : ~(m.to = a /\ m.from = p /\ m.piece = i)
   /\ \A w \in writing[a] : ~(w.from = p /\ w.piece = i)
-ServeEff(p, to, i, n) == net' = net \cup {[to |-> to, from |-> p, piece |-> i, good |-> ServesGood(p, i), n |-> n]}
+ServeEff(p, to, i, g, n) == net' = net \cup {[to |-> to, from |-> p, piece |-> i, good |-> g, n |-> n]}
 Serve(p, a, i) ==
-  /\ ServeGuard(p, a, i) /\ ServeEff(p, a, i, 0)
-  /\ UNCHANGED <<cfgv, joined, left, have, bad, conn, bl, req, inv, writing, dl, noticed>>
+  /\ ServeGuard(p, a, i) /\ ServeEff(p, a, i, ServesGood(p, i), 0)
+  /\ UNCHANGED <<cfgv, joined, left, have, bad, conn, req, inv, writing, dl>>
 
-\* the payload reaches storage.  Complete piece -> ErrPieceComplete (dropped); otherwise the piece is written
-\* (a second writer of a dirty piece gets a conflict at EndWrite: ov marks overlapping writers)
-StartWriteEff(a, m) ==
+\* the payload reaches storage; ov marks writers of the same piece that overlap in time (the later one gets a
+\* write conflict in the code, which the dispatcher treats like an invalid payload)
+StartWriteEff(a, m, n) ==
   /\ net' = net \ {m}
   /\ LET ovl == \E w \in writing[a] : w.piece = m.piece
      IN writing' = [writing EXCEPT ![a] =
             {[w EXCEPT !.ov = w.ov \/ w.piece = m.piece] : w \in @}
-            \cup {[piece |-> m.piece, good |-> m.good, from |-> m.from, ov |-> ovl, n |-> m.n]}]
+            \cup {[piece |-> m.piece, good |-> m.good, from |-> m.from, ov |-> ovl, n |-> n]}]
 StartWrite(a, m) ==
   /\ m \in net /\ m.to = a /\ a \in present
-  /\ StartWriteEff(a, m)
-  /\ UNCHANGED <<cfgv, joined, left, have, bad, conn, bl, req, inv, dl, noticed>>
+  /\ StartWriteEff(a, m, 0)
+  /\ UNCHANGED <<cfgv, joined, left, have, bad, conn, req, inv, dl>>
 
 \* outcome of a write:  "ok" piece verified and marked complete (Clear(i) drops every request for it);
 \* "dup" the piece was already complete;  "rej" checksum mismatch or write conflict: request marked invalid
@@ -194,18 +177,13 @@ EndWriteEff(a, w, res) ==
           /\ inv' = [inv EXCEPT ![a] = IF res = "rej" /\ w.from \in conn[a] THEN @ \cup {<<w.from, w.piece>>} ELSE @]
 EndWrite(a, w) ==
   /\ w \in writing[a]
-  /\ \E res \in {"ok", "dup", "rej"} :
-       /\ OutcomeOK(a, w, res)
-       /\ EndWriteEff(a, w, res)
-  /\ UNCHANGED <<cfgv, joined, left, conn, bl, net, dl, noticed>>
+  /\ \E res \in {"ok", "dup", "rej"} : OutcomeOK(a, w, res) /\ EndWriteEff(a, w, res)
+  /\ UNCHANGED <<cfgv, joined, left, conn, net, dl>>
 
-\* dispatcherCompleteEvent (also sent by a dispatcher created on a complete torrent)
-NoticeEff(a) == /\ noticed' = noticed \cup {a}
-                /\ dl' = [dl EXCEPT ![a] = IF @ = "wait" THEN "ok" ELSE @]
-                /\ bl' = [bl EXCEPT ![a] = {}]
+\* dispatcherCompleteEvent
 Notice(a) ==
-  /\ a \in present /\ HasTorrent(a) /\ Full(a) /\ a \notin noticed
-  /\ NoticeEff(a)
+  /\ a \in present /\ dl[a] = "wait" /\ Full(a)
+  /\ dl' = [dl EXCEPT ![a] = "ok"]
   /\ UNCHANGED <<cfgv, joined, left, have, bad, conn, req, inv, net, writing>>
 
 \* scheduler.Stop of an agent: connections closed, waiting Download answered ErrSchedulerStopped
@@ -220,33 +198,35 @@ Leave(a) ==
   /\ LeaveEff(a)
   /\ net' = {m \in net : m.to # a}
   /\ writing' = [writing EXCEPT ![a] = {}]
-  /\ UNCHANGED <<cfgv, joined, have, bad, bl, noticed>>
+  /\ UNCHANGED <<cfgv, joined, have, bad>>
 
 Lose(m) ==
   /\ m \in net /\ (m.to \notin present \/ m.from \notin conn[m.to])
   /\ net' = net \ {m}
-  /\ UNCHANGED <<cfgv, joined, left, have, bad, conn, bl, req, inv, writing, dl, noticed>>
+  /\ UNCHANGED <<cfgv, joined, left, have, bad, conn, req, inv, writing, dl>>
 
-Next == \/ \E p \in Peers : Join(p) \/ StartDownload(p) \/ Notice(p)
-        \/ \E a \in Agents, p \in Peers : Open(a, p) \/ Refuse(a, p) \/ ExpireBl(a, p)
+Next == \/ \E a \in Agents : Join(a) \/ Notice(a) \/ Leave(a)
+        \/ \E a \in Agents, p \in Peers : Open(a, p)
         \/ \E p, q \in Peers : CloseEnd(p, q)
         \/ \E a \in Agents, p \in Peers, i \in Pieces : Request(a, p, i) \/ Serve(p, a, i)
-        \/ \E a \in Agents : (\E m \in net : StartWrite(a, m)) \/ (\E w \in writing[a] : EndWrite(a, w)) \/ Leave(a)
+        \/ \E a \in Agents : (\E m \in net : StartWrite(a, m)) \/ (\E w \in writing[a] : EndWrite(a, w))
         \/ \E m \in net : Lose(m)
 
 Spec == Init /\ [][Next]_vars
 
-\* Fairness: every step of the protocol that is continuously possible eventually happens (weak fairness on
-\* joining, downloading, requests, serving, delivery, writes, notices, closing dead/useless connections and
-\* blacklist expiry); "the seeder stays reachable" = an agent that can connect to a seeder again and again
-\* eventually does (strong fairness on Open(a, seeder): the handout keeps containing the seeder and the
-\* blacklist entry of any other peer outlives the announce interval).  Leave, Refuse and Lose are not fair.
-Fair == /\ \A p \in Peers : WF_vars(Join(p)) /\ WF_vars(StartDownload(p)) /\ WF_vars(Notice(p))
-        /\ \A a \in Agents, p \in Peers : WF_vars(ExpireBl(a, p))
+\* Fairness: every protocol step that stays possible eventually happens (weak fairness on joining, requests,
+\* serving, delivery, writes, notices and on closing dead / useless connections); "the seeder stays reachable"
+\* = an agent that can connect to a seeder again and again eventually does (strong fairness on Open(a, seeder):
+\* the handout keeps containing the seeder and every other peer that proved useless is blacklisted for longer
+\* than the announce interval).  Leave and Lose are not fair.
+MaxNP == CHOOSE n \in NPs : \A m \in NPs : m <= n
+Fair == /\ \A a \in Agents : WF_vars(Join(a)) /\ WF_vars(Notice(a))
         /\ \A p, q \in Peers : WF_vars(CloseEnd(p, q))
         /\ \A a \in Agents, p \in Peers : WF_vars(\E i \in Pieces : Request(a, p, i))
         /\ \A a \in Agents, p \in Peers : WF_vars(\E i \in Pieces : Serve(p, a, i))
-        /\ \A a \in Agents : WF_vars(\E m \in net : StartWrite(a, m)) /\ WF_vars(\E w \in writing[a] : EndWrite(a, w))
+        /\ \A a \in Agents, p \in Peers, i \in 0..(MaxNP - 1) :
+              /\ WF_vars(\E m \in net : m.from = p /\ m.piece = i /\ StartWrite(a, m))
+              /\ WF_vars(\E w \in writing[a] : w.from = p /\ w.piece = i /\ EndWrite(a, w))
         /\ \A a \in Agents, s \in Seeders : SF_vars(Open(a, s))
 FairSpec == Spec /\ Fair
 
@@ -255,15 +235,14 @@ FairSpec == Spec /\ Fair
 SafeHave      == \A p \in Honest : bad[p] = {}
 \* ... and a Download that returned success means the whole blob, byte-exact
 CompleteExact == \A p \in Honest : dl[p] = "ok" => (have[p] = Pieces /\ bad[p] = {})
-NoticedFull   == \A p \in noticed : have[p] = Pieces
 ConnLimit     == \A p \in Peers : Cardinality(conn[p]) <= maxc[p] /\ p \notin conn[p]
 PipelineLimit == \A a \in Peers, p \in Peers : Cardinality(req[a][p]) <= pipe /\ (req[a][p] # {} => p \in conn[a])
 OnlyMissing   == \A a \in Peers, p \in Peers : req[a][p] \cap have[a] = {}
 SeederStays   == Seeders \cap left = {} /\ \A s \in Seeders : have[s] = Pieces
 LeftSilent    == \A a \in left : conn[a] = {} /\ writing[a] = {} /\ \A m \in net : m.to # a
-Inv == TypeOK /\ SafeHave /\ CompleteExact /\ NoticedFull /\ ConnLimit /\ PipelineLimit /\ OnlyMissing /\ SeederStays /\ LeftSilent
+Inv == TypeOK /\ SafeHave /\ CompleteExact /\ ConnLimit /\ PipelineLimit /\ OnlyMissing /\ SeederStays /\ LeftSilent
 
-\* pieces are never lost and a successful Download stays successful
+\* pieces are never lost, a successful Download stays successful, the configuration is fixed
 Monotone == [][/\ \A p \in Peers : have[p] \subseteq have'[p]
                /\ \A p \in Peers : dl[p] = "ok" => dl'[p] = "ok"
                /\ cfgv' = cfgv]_vars
